@@ -20,7 +20,15 @@ RULE = ("committed corpus (corpus/C05M: the inputs of review A - a clean book wi
         "sequence numbers 0 ... 2^32 ... 2^53+1 ... 2^63 ... u64::MAX in any order and time_engine from year 0, -1 ms, 0, 1 ms, now, year 9999 (equal and "
         "decreasing); magnitude - prices at 1e-8 and 1e12, amounts 1e-8 ... 1e12; long - sides of 100-260 levels and update lists of up to 300 levels "
         "with duplicate prices and zero amounts; levels - Level's order over -0, +-1e-8, +-1e12, 100.25 = 100.250; snapshot depths from {0..8, 16, 100, "
-        "2^63, usize::MAX}. corpus/C05M/dom_input_domain.ops holds one hand-written case per class. A case is distinct by "
+        "2^63, usize::MAX}. corpus/C05M/dom_input_domain.ops holds one hand-written case per class. Configuration-shape family (one `cfg` case per "
+        "eight random ones, own random stream; shape by case index): reader - the usual small set-up with most runs as `runr`: the channel-fed manager "
+        "plus a second reader task that holds its own clones of every cell's Arc and polls try_read() on all books each time the manager waits for the "
+        "next event (`rdlocked`: how often a book was found write-locked between two events; 0 by the documented use 'clone the map for viewing the up to "
+        "date OrderBooks elsewhere'); many - 5-12 cells (pre-populated or default), an OrderBookMapMulti of 5-12 distinct sparse keys (0, 1, 7, 2^8, 2^16, "
+        "2^32-1 ... 2^32+7, 2^63, usize::MAX; one shared and one unmapped cell), only 1-3 of the instruments ever receive an event, events for "
+        "unconfigured keys incl. ones sharing the low 32 bits of a configured key, 25 % Snapshots onto pre-populated books; single - an "
+        "OrderBookMapSingle with a large key on a cell other than the first among 2-5 pre-populated cells, events for the key, its low 32 bits, its "
+        "2^32-twin, 0 and 1. corpus/C05M/cfg_setup_shapes.ops holds one hand-written case per shape. A case is distinct by "
         "the SHA-1 of its op lines and non-trivial when the implementation's observation block changes at least once")
 ASSUMPTIONS = [
     "slice::binary_search_by is modelled by a transcription of the loop of core::slice (std >= 1.82: size halving without early exit, base moves right "
@@ -53,7 +61,10 @@ ASSUMPTIONS = [
     "chrono's DateTime range is not generated (the harness would panic where the drivers accept any integer)",
     "time_engine is an integer number of milliseconds (DateTime<Utc> range and sub-millisecond precision not modelled)",
     "Arc<RwLock<OrderBook>> cells are indices into a list of books; the manager is run on a current-thread runtime over a finite stream, so lock "
-    "contention with concurrent readers / writers and fairness are not modelled; tracing output (warn on Reconnecting / unknown instrument, debug on "
+    "contention with concurrent readers / writers and fairness are not modelled - except for one observation of `runr`: a second reader task (own "
+    "Arc clones) that polls try_read() on every book whenever the manager is waiting for the next event never finds a book locked (`rdlocked 0`, a "
+    "constant on the model and the spec side: the manager takes the write lock per event and releases it before awaiting the next one); two managers "
+    "writing to the same cells concurrently and a multi-thread runtime are not driven; tracing output (warn on Reconnecting / unknown instrument, debug on "
     "deleting an absent level) is not observed",
     "FnvHashMap is an association list with one entry per key (insert replaces); the iteration order of keys() is unspecified in Rust and is compared "
     "sorted",
@@ -69,7 +80,7 @@ ASSUMPTIONS = [
 SOURCE_FILES = ["barter-data/src/books/mod.rs", "barter-data/src/books/manager.rs", "barter-data/src/books/map.rs",
                 "barter-data/src/subscription/book.rs"]
 
-_CLAUSE = [("snap", "depth_snapshot"), ("mid", "mid_price"), ("def", "default_book"), ("found", "map_find"), ("keys", "map_keys"),
+_CLAUSE = [("rdlocked", "reader_not_shut_out_between_events"), ("snap", "depth_snapshot"), ("mid", "mid_price"), ("def", "default_book"), ("found", "map_find"), ("keys", "map_keys"),
            ("cmp", "level_order"), ("eq", "level_order"), ("rel", "level_order"), ("max", "level_order"), ("min", "level_order"),
            ("sorted", "level_sort"), ("ev", "constructor"), ("bp", "price_sequence"), ("ap", "price_sequence"), ("bb", "best_level"),
            ("ba", "best_level"), ("vw", "volume_weighted_mid_price"), ("h", "sequence_and_time_of_last_event"), ("b", "levels"), ("a", "levels")]
